@@ -42,3 +42,35 @@ Definition cand_sound (shgs : list shgT) (dss : list dsT) (c : cand) : Prop :=
 (* an event vector satisfies every configured validity range *)
 Definition in_ranges (rngs : list (nat * (Z * Z))) (ev : list Z) : Prop :=
   forall f lo hi, In (f, (lo, hi)) rngs -> exists v, nth_error ev f = Some v /\ lo <= v <= hi.
+
+(* all physical inputs are non-negative *)
+Definition inputs_nonneg (shgs : list shgT) (dss : list dsT) : Prop :=
+  Forall (fun h => (forall en, 0 <= h_flux h en)
+                   /\ Forall (fun s : Z * option Z => match snd s with Some w => 0 <= w | None => True end) (h_src h)) shgs
+  /\ Forall (fun d => 0 <= d_lt d /\ Forall (fun e => 0 <= e_mw e) (d_mc d)) dss.
+
+
+(* a candidate of non-zero weight: none of its factors is zero; in particular
+   its source has a non-zero weight (zero-weight sources are never injected) *)
+Definition cand_factors_nonzero (shgs : list shgT) (dss : list dsT) (c : cand) : Prop :=
+  exists h d e x ow,
+    nth_error shgs (Z.to_nat (c_shg c)) = Some h
+    /\ nth_error dss (Z.to_nat (c_ds c)) = Some d
+    /\ nth_error (d_mc d) (Z.to_nat (c_ev c)) = Some e
+    /\ nth_error (h_src h) (Z.to_nat (c_src c)) = Some (x, ow)
+    /\ e_mw e <> 0 /\ d_lt d <> 0 /\ h_flux h (e_en e) <> 0
+    /\ (src_weights h <> None -> exists w, ow = Some w /\ w <> 0).
+
+
+(* the generator object is consistent: its table is the one built from its
+   current sources and data, and its sampler holds exactly the table's weights *)
+Definition mc_ok (st : mcgen) : Prop :=
+  construct (g_shgs st) (g_dss st) = Ok (g_tbl st) /\ g_p st = map c_wn (g_tbl st).
+
+(* number of events in a {dataset key: events} dictionary *)
+Definition dict_total {E : Type} (d : list (Z * list E)) : Z := zsum (map (fun kv => zlen (snd kv)) d).
+
+(* what a per-dataset generator called with poisson=False guarantees (C18_count
+   for the MC generator): it reports and returns what it was asked for *)
+Definition subgen_contract {rng E : Type} (subgen : nat -> rng -> Z -> res (Z * list (Z * list E) * rng)) : Prop :=
+  forall j g c n d g', 0 <= c -> subgen j g c = Ok (n, d, g') -> n = c /\ dict_total d = c.
